@@ -32,11 +32,21 @@ def _axis(kw, default):
     return None
 
 
+EVSEEN = set()
 AXES = []      # (scipy routine, axis value that reached it, location) for every abstract call made during the mutator runs
+
+
+KWSEEN = []    # (scipy routine, {keyword: value that reached it}, keywords the caller of the mutator gave, location)
+USER_KW = [()]
+# defaults of the wrapped scipy routines (trusted base): a keyword the user did not give must reach scipy with this value or not at all
+SCIPY_DEFAULTS = {"scipy.signal.decimate": {"n": None, "ftype": "iir", "zero_phase": True},
+                  "scipy.signal.detrend": {"type": "linear", "bp": 0, "overwrite_data": False},
+                  "scipy.signal.sosfiltfilt": {"padtype": "odd", "padlen": None}}
 
 
 def _record_axis(name, kw, posarg=None):
     AXES.append((name, kw.get("axis", posarg), CTX.where()))
+    KWSEEN.append((name, dict(kw), tuple(USER_KW[0]), CTX.where()))
 
 
 def m_decimate(args, kw, node):
@@ -178,7 +188,11 @@ def run_single(prog, run, I):
         pre = dict(o.attrs)
         m = I.method(SINGLE, mname, o)
         CTX.events.clear()
+        USER_KW[0] = tuple(kw)
         I.call(m, args, kw)
+        # extents are integer counts in this domain: only the rounding of a dimensional quantity (fs // q) is an event worth reporting
+        CTX.events[:] = [e_ for e_ in CTX.events if e_[0] == "nonhom" and ("floor division" in e_[2] or "remainder" in e_[2])]
+        hd.events_to_obligations(run, prog, "R-post", f"{mname}({', '.join(kw)})", seen=EVSEEN)
         cfg = f"{mname}({', '.join(kw)})" if kw else f"{mname}()"
         ck = Ck(run, prog, m.qual, cfg)
         inv_single(ck, o)
@@ -267,7 +281,11 @@ def run_preger(prog, run, I):
         pre = dict(o.attrs)
         m = I.method(PREGER, mname, o)
         CTX.events.clear()
+        USER_KW[0] = tuple(kw)
         I.call(m, args, kw)
+        # extents are integer counts in this domain: only the rounding of a dimensional quantity (fs // q) is an event worth reporting
+        CTX.events[:] = [e_ for e_ in CTX.events if e_[0] == "nonhom" and ("floor division" in e_[2] or "remainder" in e_[2])]
+        hd.events_to_obligations(run, prog, "R-post", f"{mname}({', '.join(kw)})", seen=EVSEEN)
         cfg = f"{mname}({', '.join(kw)})" if kw else f"{mname}()"
         ck = Ck(run, prog, m.qual, cfg)
         inv_preger(ck, o)
@@ -355,6 +373,23 @@ def axis_rule(prog, run):
         shown = sorted({("not passed (scipy default: last axis = channels)" if v is None else repr(v)) for v in vals})
         f, _ = hd.loc_of(prog, fn) if hasattr(hd, "loc_of") else (None, 0)
         run.ob("R-kwargs", fn, f"axis defaults to 0 ({short})", ok, f"axis reaching {name} at line {line}: {shown}", witness=";".join(shown), file=f, config=f"{short}@{fn.split('.')[-1]}")
+    # keywords the user did NOT give: they must reach scipy with scipy's own default (or not at all) - otherwise the documented
+    # "remaining keywords are scipy's" is false for exactly the calls that rely on the defaults
+    done = set()
+    for name, kw, user, where in KWSEEN:
+        fn, line = where if isinstance(where, tuple) else (str(where), 0)
+        for k_, dflt in SCIPY_DEFAULTS.get(name, {}).items():
+            if k_ in user or k_ not in kw:
+                continue
+            v = kw[k_]
+            key = (name, k_, fn, repr(v))
+            if key in done:
+                continue
+            done.add(key)
+            ok = (isinstance(v, Cst) and v.v == dflt) if isinstance(v, Cst) else None
+            f, _ = hd.loc_of(prog, fn)
+            run.ob("R-kwargs", fn, f"keyword '{k_}' not given by the user reaches {name.split('.')[-1]} with scipy's default", ok,
+                   f"{k_} = {v!r} reaches {name} (scipy default {dflt!r}) when the user gave only {list(user)}", witness=f"{k_}={v!r}", file=f, config=f"{name.split('.')[-1]}.{k_}@{fn.split('.')[-1]}")
 
 
 VIEW_ATTRS = {"T", "real", "imag", "flat"}
@@ -484,6 +519,8 @@ def check(prog, run):
     I = Interp(prog)
     CTX.overrides = dict(MODELS)
     del AXES[:]
+    del KWSEEN[:]
+    EVSEEN.clear()
     try:
         run_single(prog, run, I)
         run_preger(prog, run, I)
